@@ -225,6 +225,32 @@ impl Prop for MetadataMismatch {
             (Err(e), false) => fail!("identical-rejected", "voices with identical metadata were rejected: {}", e),
             _ => {}
         }
+        // voice OBJECTS can also be edited through their public fields: one metadata field of the
+        // loaded base voice changed in memory (every field in turn over the cases), the odd object at
+        // the generated position - still "voices whose metadata differ"
+        {
+            let mut m = (*base_v).clone();
+            let ns = m.stream_models.len();
+            let (k, si) = (c.pick + 6 * c.position + 18 * (c.base.num_states % 3), c.pick % ns);
+            let what = match k % 13 {
+                0 => { m.metadata.num_streams += 1; "num_streams" }
+                1 => { m.metadata.num_states += 1; "num_states" }
+                2 => { m.metadata.sampling_frequency += 1; "sampling_frequency" }
+                3 => { m.metadata.frame_period += 1; "frame_period" }
+                4 => { m.metadata.stream_type[si].push('X'); "stream_type" }
+                5 => { m.metadata.fullcontext_format.push('X'); "fullcontext_format" }
+                6 => { m.metadata.fullcontext_version.push('1'); "fullcontext_version" }
+                7 => { m.metadata.hts_voice_version.push('1'); "hts_voice_version" }
+                8 => { m.stream_models[si].metadata.vector_length += 1; "vector_length" }
+                9 => { m.stream_models[si].metadata.num_windows += 1; "num_windows" }
+                10 => { m.stream_models[si].metadata.is_msd ^= true; "is_msd" }
+                11 => { m.stream_models[si].metadata.use_gv ^= true; "use_gv" }
+                _ => { m.stream_models[si].metadata.option.push("X=1".into()); "option" }
+            };
+            let edited = Arc::new(m);
+            let list: Vec<Arc<Voice>> = (0..c.nvoices).map(|i| if i == c.position { edited.clone() } else { base_v.clone() }).collect();
+            ensure!(VoiceSet::new(list).is_err(), "mismatch-accepted", "a voice object whose {} was changed in memory (position {} of {}) was combined with the unchanged voice without an error", what, c.position, c.nvoices);
+        }
         // through Engine::load as well (files)
         // half of the cases: both files have the same file name, in different directories
         let same_name = c.pick % 2 == 1;
